@@ -1,0 +1,57 @@
+/*
+ * Copyright (C) 2024 Nuts community
+ *
+ * This program is free software: you can redistribute it and/or modify
+ * it under the terms of the GNU General Public License as published by
+ * the Free Software Foundation, either version 3 of the License, or
+ * (at your option) any later version.
+ *
+ * This program is distributed in the hope that it will be useful,
+ * but WITHOUT ANY WARRANTY; without even the implied warranty of
+ * MERCHANTABILITY or FITNESS FOR A PARTICULAR PURPOSE.  See the
+ * GNU General Public License for more details.
+ *
+ * You should have received a copy of the GNU General Public License
+ * along with this program.  If not, see <https://www.gnu.org/licenses/>.
+ *
+ */
+
+package pe
+
+import (
+	"encoding/json"
+	"errors"
+)
+
+// UnmarshalJSON parses a presentation definition and refuses JSON null entries in its lists of input descriptors and
+// (nested) submission requirements. A definition received from a remote verifier (presentation_definition,
+// presentation_definition_uri) is not checked against the JSON schema; a null entry would be dereferenced while matching.
+func (presentationDefinition *PresentationDefinition) UnmarshalJSON(data []byte) error {
+	type alias PresentationDefinition
+	var tmp alias
+	if err := json.Unmarshal(data, &tmp); err != nil {
+		return err
+	}
+	for _, inputDescriptor := range tmp.InputDescriptors {
+		if inputDescriptor == nil {
+			return errors.New("presentation definition: input_descriptors contains a null entry")
+		}
+	}
+	if err := refuseNullRequirements(tmp.SubmissionRequirements); err != nil {
+		return err
+	}
+	*presentationDefinition = PresentationDefinition(tmp)
+	return nil
+}
+
+func refuseNullRequirements(requirements []*SubmissionRequirement) error {
+	for _, requirement := range requirements {
+		if requirement == nil {
+			return errors.New("presentation definition: submission_requirements contains a null entry")
+		}
+		if err := refuseNullRequirements(requirement.FromNested); err != nil {
+			return err
+		}
+	}
+	return nil
+}
